@@ -408,7 +408,15 @@ func (c *Client) SendProtobufParallelWithDecoder(nodes []*network.ServerIdentity
 			return node, nil
 		case err := <-errChan:
 			if opt.Quit() {
-				close(done)
+				// The reply of another node may be accepted at this very
+				// moment: done is closed once, by whoever comes first.
+				decoding.Lock()
+				select {
+				case <-done:
+				default:
+					close(done)
+				}
+				decoding.Unlock()
 				return nil, err
 			}
 			errs = append(errs, xerrors.Errorf("sending: %v", err))
